@@ -50,6 +50,15 @@ def _worker(args):
             except Violation as v:
                 out["failures"].append(v.as_dict())
                 rec.excluded.add(v.bucket)
+            except Exception as e:  # noqa: BLE001
+                # safety net: an exception that escapes from repository code outside any oracle (task set-up calling the library) is the
+                # library misbehaving, not the harness: report it as a violation with the task as replay unit; harness bugs still exit 2
+                if not common.raised_in_repo(e):
+                    raise
+                bucket = f"{prop}/unexpected-exception/task/{type(e).__name__}@{common.exc_site(e)}"
+                out["failures"].append(Violation(bucket, f"{type(e).__name__} escaped from {common.exc_site(e)} while task {task['name']} prepared its cases: {str(e)[:160]}",
+                                                 "task", {"task": {k: task[k] for k in ('name', 'fn', 'kw', 'env') if k in task}, "seed": seed, "tier": tier}, repr(e), "no exception").as_dict())
+                break
         out["failures"].extend(rec.soft_failures)
         out["summary"] = rec.summary()
     except BaseException:  # noqa: BLE001
@@ -103,6 +112,12 @@ def run_replay_case(mod, data):
     rec = Recorder()
     for k, v in (data.get("env") or {}).items():
         os.environ[k] = v
+    if data["oracle"] == "task":  # replay unit of the worker's safety net: re-run the whole task
+        c = data["case"]
+        r = _worker((data["property"], c["task"], c["seed"], c["tier"], []))
+        if r.get("error"):
+            raise HarnessError(r["error"])
+        return r["failures"][0] if r["failures"] else None
     oracle = mod.ORACLES[data["oracle"]]
     try:
         oracle(rec, common.U(data["case"]))
